@@ -8,6 +8,7 @@ from gv import rules
 from gv.astutil import as_update
 from gv.astutil import dotted
 from gv.astutil import last_attr
+from gv.astutil import const_value
 from gv.astutil import mangle
 from gv.astutil import names_in
 from gv.astutil import norm_stmt
@@ -801,7 +802,42 @@ def check_builder_required(ctx: Ctx) -> None:
     ctx.ob("15.8-builder-required", con, ok, "the required names added by update_from_schema must be those listed by the schema given (schema['required']): the builder's own `required` is the INTERSECTION with what it already holds, i.e. nothing once a first schema has been processed", node=(upd or [f])[0], stmt="required names of the imported schema")
 
 
+def check_update_switch(ctx: Ctx) -> None:
+    """15.9: ``merge=False`` REPLACES the definition of an element.  genson merges by default; the grammar's object
+    strategy passes its update switch to the schema nodes around each of genson's two ways in -- ``add_schema`` (from a
+    schema: update_from_types / update_from_schema / update) and ``add_object`` (from data: update_from_data /
+    update_from_names).  Both are overridden, each running the inherited method inside the switch's context; and the
+    context resets the switch afterwards (the node class is shared)."""
+    rel = "core/grammars/json_schema.py"
+    cls = ctx.index.cls(rel, "_MergeStrategy")
+    cm = cls.methods.get("__handle_update") or cls.methods.get(mangle("_MergeStrategy", "__handle_update"))
+    ctx.need(cm is not None, "_MergeStrategy.__handle_update not found")
+    for entry in ("add_schema", "add_object"):
+        m = cls.methods.get(entry)
+        ok = m is not None
+        node = m or cls.node
+        if ok:
+            sup = [c for c in walk_body(m) if isinstance(c, ast.Call) and isinstance(c.func, ast.Attribute) and c.func.attr == entry and isinstance(c.func.value, ast.Call) and dotted(c.func.value.func) == "super"]
+            withs = [w for w in ast.walk(m) if isinstance(w, ast.With) and any(isinstance(it.context_expr, ast.Call) and (last_attr(it.context_expr) or "").endswith("__handle_update") for it in w.items)]
+            ok = len(sup) == 1 and any(any(x is sup[0] for x in ast.walk(w)) for w in withs)
+            node = (sup or [m])[0]
+        ctx.ob("15.9-update-switch", cname(rel, "_MergeStrategy", entry), ok, f"_MergeStrategy.{entry} must run genson's {entry} inside the update-switch context: without it `merge=False` merges the new definition of an element with the old one (both types accepted) on this way in", node=node, stmt=f"{entry} runs under the update switch")
+    cfg = cfg_of(cm)
+    ys = [n_ for n_ in walk_body(cm) if isinstance(n_, ast.Yield)]
+    sets = [s_ for s_ in stmts_of(cm) if isinstance(s_, ast.Assign) and (dotted(s_.targets[0]) or "").endswith("node_class.update")]
+    before = [s_ for s_ in sets if ys and cfg.dominates(cfg.node_of(s_), cfg.node_of(ys[0])) and dotted(s_.value) == "self.update"]
+    after = [s_ for s_ in sets if ys and cfg.reachable(cfg.node_of(ys[0]), cfg.node_of(s_))]
+    ctx.ob("15.9-update-switch", cname(rel, "_MergeStrategy", "__handle_update"), len(ys) == 1 and bool(before) and bool(after), "the context passes the strategy's switch to the node class before the body and sets it back after", node=cm, stmt="switch passed, then set back")
+    # the contexts nest (an object property has a strategy of its own, entered while its parent's is open): leaving the
+    # inner one must give the outer one its switch back, i.e. restore the value read on entry -- a constant (False)
+    # makes the parent merge every property that comes after a nested object (F46)
+    saved = {dotted(s_.targets[0]) for s_ in stmts_of(cm) if isinstance(s_, ast.Assign) and isinstance(s_.targets[0], ast.Name) and (dotted(s_.value) or "").endswith("node_class.update") and before and cfg.dominates(cfg.node_of(s_), cfg.node_of(before[0]))}
+    ok = bool(after) and all(dotted(s_.value) in saved for s_ in after)
+    ctx.ob("15.9-update-switch", cname(rel, "_MergeStrategy", "__handle_update"), ok, "leaving the context must restore the switch as it was on entry (the contexts of nested objects nest): reset to a constant, the strategy of a nested object switches its parent back to merging, and with merge=False the properties after a nested object keep their old types as well", node=(after or [cm])[0], stmt="switch restored to its value on entry")
+
+
 def run(ctx: Ctx) -> None:
+    check_update_switch(ctx)
     check_update_source_untouched(ctx)
     check_builder_required(ctx)
     check_json(ctx)
